@@ -3,10 +3,10 @@ package main
 // Calls: contracts, library table, inlining, havoc.
 
 import (
-	"os"
 	"fmt"
 	"go/token"
 	"go/types"
+	"os"
 	"strings"
 
 	"golang.org/x/tools/go/ssa"
@@ -26,18 +26,18 @@ const (
 )
 
 type callPlan struct {
-	kind     planKind
-	fc       *FuncContract
-	callee   *ssa.Function
+	kind      planKind
+	fc        *FuncContract
+	callee    *ssa.Function
 	calleeObj *types.Func
-	builtin  string
-	name     string
-	nonNil   bool // result (error/pointer) is non-nil
-	bindings []*Val
-	sig      *types.Signature
-	recvName string
-	cands    []*ssa.Function
-	closed   bool
+	builtin   string
+	name      string
+	nonNil    bool // result (error/pointer) is non-nil
+	bindings  []*Val
+	sig       *types.Signature
+	recvName  string
+	cands     []*ssa.Function
+	closed    bool
 }
 
 // packages whose functions are assumed to have no effect on modelled state (trusted).
@@ -209,6 +209,9 @@ func (f *frame) call(res ssa.Value, c *ssa.CallCommon, st *State, cur string) (s
 			name = c.Method.Name()
 		} else if fn := c.StaticCallee(); fn != nil {
 			name = fn.Name()
+			if i := strings.Index(name, "["); i > 0 {
+				name = name[:i]
+			}
 		}
 		if name != "" {
 			if f.callLog == nil {
@@ -224,6 +227,16 @@ func (f *frame) call(res ssa.Value, c *ssa.CallCommon, st *State, cur string) (s
 				rec.argT = append(rec.argT, a.Type())
 			}
 			f.callLog[name] = append(f.callLog[name], rec)
+			if f.fc != nil {
+				_, n2 := callSiteNames(c)
+				for ci, ce := range f.fc.CallEvents {
+					if (ce.Name == name || ce.Name == n2) && ce.Arg < len(rec.args) && rec.args[ce.Arg] != nil && rec.args[ce.Arg].term != "" {
+						B := f.t.B
+						st.trace = B.define("trace", "(Array Int Event)", fmt.Sprintf("(store %s %s (ev_Called %d %s))", st.trace, st.ntrace, ci+1, rec.args[ce.Arg].term))
+						st.ntrace = B.define("ntrace", "Int", fmt.Sprintf("(+ %s 1)", st.ntrace))
+					}
+				}
+			}
 			if os.Getenv("GVC_DEBUGCALLS") != "" {
 				fmt.Fprintf(os.Stderr, "calllog %s #%d at %s (%s)\n", name, len(f.callLog[name])-1, f.t.P.Prog.Fset.Position(c.Pos()), f.vname(res))
 			}
